@@ -136,6 +136,12 @@ def gen_scenario(rng):
                 # queued job that is not explicitly cleared" is in its
                 # statement: a job may stay unexecuted only if some
                 # linearisation has it in the queue when a clear takes effect)
+                mine = [o[1] for o in ops if o[0] in ('add', 'insert', 'spawn')]
+                if mine and rng.random() < 0.4:
+                    # a stop through the handle add/insert/spawn returned,
+                    # whether that job is waiting, running or already over
+                    ops.append(('stop_handle', rng.choice(mine)))
+                    continue
                 ops.append((rng.choice(['stop_current', 'status',
                                         'stop_current', 'clear']),))
                 continue
@@ -173,6 +179,7 @@ def run_scenario(seed, clients, policy, depth):
     hist = []
     problems = []
     jobs = {}
+    handles = {}
     outcome = {'deadlock': None}
     try:
         jc = job_control.JobControl()
@@ -191,7 +198,10 @@ def run_scenario(seed, clients, policy, depth):
                         jobs[op[1]] = job
                         fn = {'add': jc.add_job, 'insert': jc.insert_job,
                               'spawn': jc.spawn_job}[kind]
-                        fn(job, op[1])
+                        handles[op[1]] = fn(job, op[1])
+                    elif kind == 'stop_handle':
+                        if handles.get(op[1]) is not None:
+                            handles[op[1]].request_stop()
                     elif kind == 'stop_current':
                         result = jc.stop_current()
                     elif kind == 'clear':
@@ -456,7 +466,8 @@ def finalize(merged):
             c.get('completion_inside_concurrent_enqueue', 0),
         'scheduler_steps': c.get('scheduler_steps', 0)}
     for need in ('histories_ok', 'completion_inside_concurrent_enqueue',
-                 'policy:pct', 'call:clear', 'body:raise-base', 'body:loop'):
+                 'policy:pct', 'call:clear', 'call:stop_handle',
+                 'body:raise-base', 'body:loop'):
         if not c.get(need) and not merged['violations']:
             merged['inconclusive'].append('monitor observed nothing: ' + need)
 
